@@ -122,6 +122,9 @@ const keyLiteralBlock = "migrate/value=multi-line-string-starting-with-tab-or-li
 // judged with a fresh output path holds)
 const keyPreExisting = "migrate/outfile=pre-existing/old-content-not-replaced"
 
+// canonical key: v2 exclude path that is not a regular expression, evaluated by a recursive package
+const keyExcludeNotRegex = "migrate/value=exclude-path-not-a-regex/evaluated-by-recursive-package/loader-rejects"
+
 // known reports whether key is a recorded finding (KNOWN_FINDINGS.txt) or is assumed to be one for a
 // development run (C19_ASSUME_KNOWN=key1,key2), in which case the generator steers away from its trigger.
 func known(key string) bool {
@@ -374,6 +377,10 @@ func genString(t *rapid.T, key, tag string) (string, string) {
 		s = rapid.SampledFrom(logLevels).Draw(t, "loglevel")
 	case rapid.IntRange(0, 9).Draw(t, "marker") >= 6:
 		s = key + "=" + tag // unique per (level, key): makes leaks between keys and levels visible
+	case key == "exclude" && rapid.IntRange(0, 3).Draw(t, "pkgpath") == 0:
+		// v2 `exclude` holds package paths, not expressions: `+` is legal in an import path and
+		// `c++` is not a valid regular expression. The migrated file must still load.
+		s = rapid.SampledFrom([]string{"example.com/m/bindings/c++", "github.com/acme/lib/c++/internal", "pkg/a++"}).Draw(t, "pkgpathv")
 	case key == "exclude" || key == "include-regex" || key == "exclude-regex":
 		s = rapid.SampledFrom(regexSafe).Draw(t, "regex")
 	default:
@@ -1838,6 +1845,18 @@ func judge(c Case) *vh.Violation {
 			vh.DontCare("loader-refuses-the-names-alone")
 			vh.Note("loader refuses a names-only v3 file: %s", vh.Trunc(firstLines(noDebug(sk.Stderr), 3), 300))
 			return nil
+		}
+		// recorded finding: a v2 `exclude` entry is a package path; copied verbatim into
+		// `exclude-subpkg-regex` it need not be an expression (`c++`), and a recursive package with
+		// sub-packages evaluates it: the loader refuses the migrated file. Reported under its own key;
+		// once listed, campaign cases that run into it are counted as excluded (replays still judge it).
+		if v3b, _ := os.ReadFile(filepath.Join(d, outRel)); strings.Contains(string(v3b), "++") &&
+			strings.Contains(sc.Stderr, "evaluating `exclude-subpkg-regex`") && strings.Contains(sc.Stderr, "error parsing regexp") {
+			if known(keyExcludeNotRegex) && os.Getenv("VCHECK_REPLAY") == "" {
+				vh.Excluded(keyExcludeNotRegex)
+				return nil
+			}
+			return x.fail(keyExcludeNotRegex, "a v2 exclude path that is not a regular expression makes the v3 loader refuse the migrated file: %s", vh.Trunc(firstLines(noDebug(sc.Stderr), 1), 300))
 		}
 		feature := "other"
 		if len(rootAnchors(c.Root)) > 0 {
